@@ -16,7 +16,7 @@ Open Scope Z_scope.
 UNIVERSES = {
     "self": dict(hashable=True, bare=True),     # self-keyed strings
     "tuple": dict(hashable=True, bare=True),    # ('a', p), key=lambda t: t[0], one-character keys
-    "spec": dict(hashable=False, bare=True),    # keyed spec-class instances, default key function
+    "spec": dict(hashable=False, bare=True, hash_ok=True),  # keyed spec-class instances (hash by identity), default key function
     "intkey": dict(hashable=True, bare=False),  # (k, p), key=lambda t: t[0], int keys
     "dict": dict(hashable=False, bare=False),   # {'k': 'k1', 'p': p}, key=lambda d: d['k']
     "list": dict(hashable=False, bare=True),    # ['a', p], key=lambda l: l[0]
@@ -312,7 +312,8 @@ def c_op(u, op):
 
 def c_case(u, typed, enf, init, ops, seen):
     obs = clist(seen, lambda o: f"({czlist(o[0])}, {czlist(o[1])})")
-    return (f"mkcase {cbool(typed)} {cbool(enf)} {cbool(UNIVERSES[u]['bare'])} {clist(init, c_item)} "
+    hash_ok = UNIVERSES[u]["hashable"] or UNIVERSES[u].get("hash_ok", False)
+    return (f"mkcase {cbool(typed)} {cbool(enf)} {cbool(UNIVERSES[u]['bare'])} {cbool(hash_ok)} {clist(init, c_item)} "
             f"{clist(ops, lambda o: c_op(u, o))} {obs}")
 
 
@@ -361,6 +362,8 @@ def op_instances(u, keys, pays, typed):
         ops += [("Discard", a), ("Remove", a), ("Contains", a), ("GetItem", a)]
     ops += [("Get", (k, pays[0])) for k in keys] if u != "self" else [("Get", x) for x in items]
     ops += [("Pop",), ("Clear",), ("Len",), ("Iter",), ("Keys",), ("Items",)]
+    if not UNIVERSES[u]["hashable"]:
+        ops += [(n, ("Set", []), sw) for n in ("Eq", "Ne") for sw in (False, True)]
     for p in operand_pool(u, keys, pays, typed):
         for n in OPERAND_OPS:
             if n in ("Eq", "Ne", "Le", "Lt", "Ge", "Gt") and p[0] == "Set":
@@ -402,6 +405,8 @@ def random_op(rng, u, typed):
     xs = [rng.choice(items + bad) if rng.random() < 0.15 else rng.choice(items) for _ in range(rng.choice([0, 1, 1, 2, 2, 3, 4]))]
     kinds = ["KS", "KS", "List", "Self"] + (["Set", "Set"] if UNIVERSES[u]["hashable"] else [])
     kind = rng.choice(kinds)
+    if n in ("Eq", "Ne") and not UNIVERSES[u]["hashable"] and rng.random() < 0.2:
+        return (n, ("Set", []), rng.random() < 0.5)
     if kind == "Self":
         return (n, ("Self",))
     if kind == "KS":
@@ -436,7 +441,7 @@ def generate(rng, tier):
         keys, pays = [0, 1, 2], [0, 1]
         insts = op_instances(u, keys, pays, typed)
         for init in states(keys, pays, 2 if quick else 3):
-            st = 40 if quick else (5 if len(init) < 3 else 40)
+            st = 16 if quick else (4 if len(init) < 3 else 32)
             for op in insts[rng.randrange(st)::st]:
                 cases.append((u, typed, enf, init, [op], "exh1"))
     # depth 2 over a smaller universe
@@ -444,10 +449,10 @@ def generate(rng, tier):
         keys, pays = [0, 1], [0, 1]
         insts = op_instances(u, keys, pays, typed)
         for init in states(keys, pays, 2):
-            for _ in range(3 if quick else 60):
+            for _ in range(6 if quick else 80):
                 cases.append((u, typed, enf, init, [rng.choice(insts), rng.choice(insts)], "exh2"))
     # random longer sequences over 5 keys x 3 payloads
-    n_rand = 2400 if quick else 48000
+    n_rand = 4800 if quick else 60000
     for i in range(n_rand):
         u, typed, enf = configs[i % len(configs)]
         init, ops = random_case(rng, u, typed, 8 if quick else 16)
@@ -546,6 +551,75 @@ def op_kind(op):
     return op[0] + ("/" + op[1][0] if op[0] in OPERAND_OPS else "")
 
 
+def anchored_code():
+    """code objects of the anchored functions: KeyedSet's and KeyedBase's own
+    methods and the collections.abc Set / MutableSet mixins it inherits"""
+    import _collections_abc as abc
+    from spec_classes.types.keyed import KeyedBase, KeyedSet
+    out = {}
+    for cls, label in ((KeyedSet, "KeyedSet"), (KeyedBase, "KeyedBase"), (abc.Set, "Set"), (abc.MutableSet, "MutableSet")):
+        for name, f in vars(cls).items():
+            fs = []
+            if isinstance(f, property):
+                fs = [g for g in (f.fget, f.fset) if g]
+            elif isinstance(f, classmethod):
+                fs = [f.__func__]
+            elif callable(f) and hasattr(f, "__code__"):
+                fs = [f]
+            for g in fs:
+                if name in ("__spec_class_check_type__", "_hash", "__repr__"):
+                    continue   # not part of the modelled behaviour
+                if label in ("Set", "MutableSet") and name in ("add", "discard", "__eq__", "__ior__", "__ixor__",
+                                                                  "_from_iterable", "__contains__", "__iter__", "__len__"):
+                    continue   # replaced by KeyedSet (not reached through super()) / abstract
+                if g.__code__ in out.values():
+                    continue   # __rand__ = __and__ etc.: one code object
+                out[f"{label}.{name}" + (".setter" if isinstance(f, property) and g is f.fset else "")] = g.__code__
+    return out
+
+
+def line_coverage(cases):
+    """lines of the anchored functions executed while running `cases` on the implementation"""
+    import sys
+    codes = anchored_code()
+    wanted = {c: n for n, c in codes.items()}
+    hit = {n: set() for n in codes}
+
+    def tracer(frame, event, arg):
+        n = wanted.get(frame.f_code)
+        if n is None:
+            # generator expressions / nested code inside the mixins
+            return tracer if frame.f_code.co_filename.endswith(("_collections_abc.py", "keyed.py")) else None
+        if event == "line":
+            hit[n].add(frame.f_lineno)
+        return tracer
+
+    def local(frame, event, arg):
+        return tracer(frame, event, arg)
+
+    impls = {}
+    sys.settrace(local)
+    try:
+        for c in cases:
+            impl = impls.setdefault(c[:3], Impl(*c[:3]))
+            try:
+                impl.run(c[3], c[4])
+            except BaseException:
+                pass
+    finally:
+        sys.settrace(None)
+    report, missed = {}, {}
+    for n, code in codes.items():
+        lines = {ln for _, _, ln in code.co_lines() if ln is not None and ln != code.co_firstlineno}
+        if not lines:
+            continue
+        got = hit[n] & lines
+        report[n] = f"{len(got)}/{len(lines)}"
+        if lines - got:
+            missed[n] = sorted(lines - got)
+    return report, missed
+
+
 def main(tier, replay=None):
     chk = Check("C14", tier)
     if replay:
@@ -602,7 +676,10 @@ def main(tier, replay=None):
     for c in cases:
         kinds[c[5]] = kinds.get(c[5], 0) + 1
     pick = [cases[0], cases[len(cases) // 2], cases[-1]]
+    cov_report, cov_missed = line_coverage(cases[::(9 if tier == "quick" else 37)])
     extra = {
+        "anchored_line_coverage": {"executed/total per function": cov_report,
+                                   "modelled, not tied in this run (lines never executed)": cov_missed},
         "correspondence": {"cases": len(cases), "operations": sum(len(c[4]) for c in cases),
                            "disagreements": len(bad), "by_generator": kinds, "op_histogram": hist,
                            "initial_size_histogram": sizes,
@@ -612,7 +689,7 @@ def main(tier, replay=None):
         "evaluations": len(cases), "distinct_nontrivial": len(distinct),
         "rule": "case = (universe, typed, enforce_item_equivalence, initial items, operation list); depth-1: every state "
                 "of <=2 (thorough <=3) items of 3 keys x 2 payloads x a stride through every operation instance "
-                "(quick: every 40th; thorough: every 5th for <=2 items, every 40th for 3), sampled depth-2, random "
+                "(quick: every 16th; thorough: every 4th for <=2 items, every 32nd for 3), sampled depth-2, random "
                 "sequences of <=8/16 operations over 5 keys x 3 payloads; distinct = distinct tuples; every case has >=1 operation",
         "samples": [dict(universe=c[0], typed=c[1], enforce=c[2], init=c[3], ops=c[4]) for c in pick],
         "exhaustive": False,
